@@ -1,6 +1,7 @@
 package types
 
 import (
+	"bytes"
 	"encoding/json"
 	"errors"
 	"fmt"
@@ -105,24 +106,56 @@ func (x *XObject) Format(env envs.Environment) string {
 
 // MarshalJSON converts this type to internal JSON
 func (x *XObject) MarshalJSON() ([]byte, error) {
-	marshaled := make(map[string]json.RawMessage, x.Count())
-	for p, v := range x.properties() {
+	b := &bytes.Buffer{}
+	x.writeJSON(b)
+	return b.Bytes(), nil
+}
+
+func (x *XObject) writeJSON(b *bytes.Buffer) {
+	props := x.properties()
+	withDefault := x.hasDefault() && x.marshalDefault
+
+	keys := make([]string, 0, len(props)+1)
+	for p, v := range props {
 		if IsNil(v) || x.marshalDeprecated || v.Deprecated() == "" {
-			asJSON, err := ToXJSON(v)
-			if err == nil {
-				marshaled[p] = json.RawMessage(asJSON.Native())
-			}
+			keys = append(keys, p)
 		}
 	}
+	if withDefault {
+		keys = append(keys, serializeDefaultAs)
+	}
+	sort.Strings(keys)
 
-	if x.hasDefault() && x.marshalDefault {
-		asJSON, err := ToXJSON(x.def)
-		if err == nil {
-			marshaled[serializeDefaultAs] = json.RawMessage(asJSON.Native())
+	b.WriteByte('{')
+	first := true
+
+	for _, k := range keys {
+		v := props[k]
+		if withDefault && k == serializeDefaultAs {
+			v = x.def
 		}
+
+		// a property which can't be marshaled is left out
+		mark := b.Len()
+		if !first {
+			b.WriteByte(',')
+		}
+		key, err := jsonx.Marshal(k)
+		if err != nil {
+			b.Truncate(mark)
+			continue
+		}
+		b.Write(key)
+		b.WriteByte(':')
+
+		if xerr := writeJSON(b, v); xerr != nil {
+			b.Truncate(mark)
+			continue
+		}
+		first = false
 	}
 
-	return jsonx.Marshal(marshaled)
+	b.WriteByte('}')
 }
 
 // ReadXObject reads an instance of this type from JSON
